@@ -823,6 +823,7 @@ let orc_net args lib impl =
   try
     let r = ref impl in
     let proj = ref [] in
+    let item_texts = ref [] in
     List.iter (fun op ->
         let (cls, r1) = take1 !r in
         if cls = 2 then (proj := !proj @ [[2]]; let (_, r2) = take1 r1 in r := r2) else begin
@@ -831,7 +832,13 @@ let orc_net args lib impl =
             let (v, r3) = take_jv r2 in
             (match op with
              | NFetch _ -> let (src, r4) = take_text r3 in proj := !proj @ [0 :: put_jv v @ put_text src]; r := r4
-             | NListing _ | NUnknown _ | NWebfinger _ | NPaging _ | NFeed _ | NUserInput _ ->
+             | NUserInput _ ->
+               (* the slot after the summary carries the item's texts as shown (not compared: judged by the text oracles) *)
+               let (has, r4) = take1 r3 in
+               proj := !proj @ [0 :: put_jv v @ [0]];
+               if has = 0 then r := r4
+               else let (txt, r5) = take_text r4 in (item_texts := txt :: !item_texts; r := r5)
+             | NListing _ | NUnknown _ | NWebfinger _ | NPaging _ | NFeed _ ->
                let (has, r4) = take1 r3 in
                if has = 0 then (proj := !proj @ [0 :: put_jv v @ [0]]; r := r4)
                else let (id, r5) = take_text r4 in (proj := !proj @ [0 :: put_jv v @ (1 :: put_text id)]; r := r5))
@@ -858,7 +865,9 @@ let orc_net args lib impl =
     let no_nil_doc = List.for_all (fun p -> p <> [3]) !proj in
     let transparent = List.for_all2 (fun p c -> c = [-1] || p = c) !proj !cold_outs in
     [("results_equal_model", results_equal); ("requests_equal_model", log_equal);
-     ("request_shape", shape_ok); ("accept_known", accept_ok); ("no_plaintext_connection", canary = 0); ("no_nil_document", no_nil_doc); ("cache_transparent", transparent)]
+     ("request_shape", shape_ok); ("accept_known", accept_ok); ("no_plaintext_connection", canary = 0); ("no_nil_document", no_nil_doc); ("cache_transparent", transparent);
+     ("item_text_safe", List.for_all safe_b !item_texts); ("item_text_neutral", List.for_all neutral_b !item_texts);
+     ("item_text_wf", List.for_all wf_text_b !item_texts)]
   with _ -> [("well_formed_result", false)]
 
 (* ---------------- items built from arbitrary JSON (C06, C01, C14): oracles only ---------------- *)
